@@ -199,7 +199,25 @@ func ruleR06c(c *Check) {
 	c.Rule("R06c", "in the directory Load, os.RemoveAll of the destination succeeds before the destination is created and before anything is created below it", 1)
 	impls, _ := handlerFuncs(c, "Load")
 	for _, fn := range impls {
-		mk := callsNamed(fn, "os.MkdirAll")
+		var mk []ssa.CallInstruction
+		// the directory restore: the Load implementation that reads the directory record
+		isDirLoad := false
+		for _, s := range engine.SitesIn(fn) {
+			if strings.HasSuffix(engine.CalleeName(s), "gen.Output).GetDirectory") {
+				isDirLoad = true
+			}
+		}
+		if isDirLoad {
+			for _, m := range callsNamed(fn, "os.MkdirAll") {
+				if !derivesFromCall(m.Common().Args[0], "path/filepath.Dir") {
+					mk = append(mk, m)
+				}
+			}
+			if len(mk) == 0 {
+				c.Bad("R06c", "clear-before-recreate/"+c.P.FuncName(fn), "the directory restore never (re)creates its destination directory", c.P.Pos(fn.Pos()))
+				continue
+			}
+		}
 		if len(mk) == 0 {
 			continue
 		}
@@ -364,7 +382,7 @@ func ruleR06f(c *Check) {
 				args := ch.Common().Args
 				mode := args[len(args)-1]
 				back := c.G.Backward([]Node{mode}, func(e *engine.Edge) bool {
-					return e.Via != nil && engine.InPackage(e.Via.Parent(), "output/handlers") && e.Kind != engine.EField
+					return e.Via != nil && (engine.InPackage(e.Via.Parent(), "output/handlers") || engine.InPackage(e.Via.Parent(), "proto/gen")) && e.Kind != engine.EField
 				})
 				if back.Has(fk("proto/gen.FileNode", "IsExecutable")) || back.Has(fk("proto/gen.FileOutput", "IsExecutable")) || modeControlledByExecFlag(c, fn, mode) {
 					good = append(good, ch)
@@ -402,7 +420,7 @@ func modeControlledByExecFlag(c *Check, fn *ssa.Function, mode ssa.Value) bool {
 			continue
 		}
 		back := c.G.Backward([]Node{ifi.Cond}, func(e *engine.Edge) bool {
-			return e.Via != nil && engine.InPackage(e.Via.Parent(), "output/handlers") && e.Kind != engine.EField
+			return e.Via != nil && (engine.InPackage(e.Via.Parent(), "output/handlers") || engine.InPackage(e.Via.Parent(), "proto/gen")) && e.Kind != engine.EField
 		})
 		if back.Has(fk("proto/gen.FileNode", "IsExecutable")) || back.Has(fk("proto/gen.FileOutput", "IsExecutable")) {
 			return true
